@@ -353,8 +353,15 @@ Theorem C02_guard_accepts_capture_witness :
   shadowing_risk_prog capture_witness = true.
 Proof. exact guard_accepts_capture_witness. Qed.
 Print Assumptions C02_guard_accepts_capture_witness.
-Theorem C02_guard_rejects_call_main_witness : prog_guard call_main_witness = false.
-Proof. exact guard_rejects_call_main_witness. Qed.
+Theorem C02_guard_accepts_call_main_witness :
+  prog_guard call_main_witness = true /\ NoDup (map fdname (fcpdefs call_main_witness)) /\
+  calls_main_prog call_main_witness = true.
+Proof. exact guard_accepts_call_main_witness. Qed.
+Theorem C02_call_main_witness_simulated : forall (args : list Z) (n : nat) (o : obs),
+  run_fun n call_main_witness args = o -> final o ->
+  exists m, run_core m (compiled_or_empty call_main_witness) args = o.
+Proof. exact call_main_witness_simulated. Qed.
+Print Assumptions C02_call_main_witness_simulated.
 (* ... hence, by the THEOREM (not by evaluation), every final source run of the capture witness is
    reproduced by the Core machine on its translation *)
 Theorem C02_capture_witness_simulated : forall (args : list Z) (n : nat) (o : obs),
